@@ -758,10 +758,11 @@ def r_ti_variant_tree(model, rep):
         name = ("elem", e.loops[0][1], e.loops[0][0])
         sec = ("attr", ("attr", S, "_variant"), "_section")
         got = ("call", ("attr", IN, "get"), (sec, name), ())
-        v = e.value[2][2]
-        ok = e.value[2][:2] == (S, name) and v[0] == "phi" and set(v[1]) == {got, ("const", None)} and not T.guard_tests(e)
-        ho = [ev for ev in gcx.events if ev.kind == "call" and ev.value == ("call", ("attr", IN, "has_option"), (sec, name), ())]
-        ok = ok and len(ho) == 1
+        has = ("call", ("attr", IN, "has_option"), (sec, name), ())
+        raw = e.raw[2][2]
+        present = T.degate(facts.Scenario(gcx, atoms={has: True}).term(raw))
+        absent = T.degate(facts.Scenario(gcx, atoms={has: False}).term(raw))
+        ok = e.value[2][:2] == (S, name) and present == got and absent == ("const", None) and not T.guard_tests(e)
     rep.ob("R-TI-PATHS", "treeinfo.VariantPaths.deserialize_1_0", ok, site=gcx.site(g.node),
            msg="" if ok else "every path kind must be read from [variant section]/<kind> when present, None otherwise")
     # the dispatching wrapper itself must not touch the fields for current-version files
